@@ -73,6 +73,8 @@ def install_listdir(seed):
     def key(name):
         if isinstance(name, bytes):
             name = name.decode("utf-8", "replace")
+        if seed == "sorted":
+            return name
         return hashlib.sha256(f"{seed}:{name}".encode()).digest()
 
     def listdir(path="."):
@@ -88,16 +90,17 @@ def install_listdir(seed):
 
 
 def install_worker_delay(seed):
-    from fortls.langserver import LangServer
+    """per-file sleep inside FortranFile.parse: pool workers (forked later) finish in a permuted order"""
+    from fortls.parsers.internal.parser import FortranFile
 
-    orig = LangServer.file_init
+    orig = FortranFile.parse
 
-    def file_init(filepath, *a, **k):
-        r = random.Random(hashlib.sha256(f"{seed}:{os.path.basename(filepath)}".encode()).digest())
+    def parse(self, *a, **k):
+        r = random.Random(hashlib.sha256(f"{seed}:{os.path.basename(self.path or '')}".encode()).digest())
         time.sleep(r.random() * 0.03)
-        return orig(filepath, *a, **k)
+        return orig(self, *a, **k)
 
-    LangServer.file_init = staticmethod(file_init)
+    FortranFile.parse = parse
 
 
 def install(cfg):
